@@ -29,6 +29,8 @@ def is_ceil_div(t, n, w, fn=None, prog=None, tb=None):
     # n/w + (n % w != 0) as usize
     if t == mk("Add", mk("Div", n, w), ("cast", "usize", mk("Ne", mk("Rem", n, w), const(0)))):
         return True
+    if t == mk("Add", mk("Div", n, w), mk("Ne", mk("Rem", n, w), const(0))):       # usize::from(n % w != 0)
+        return True
     # n/w + {0 if n % w == 0 else 1}
     if t[0] == "op" and t[1] == "Add" and len(t[2]) == 2:
         rest = [x for x in t[2] if x != mk("Div", n, w)]
